@@ -109,6 +109,7 @@ type op struct {
 type plan struct {
 	ViaGenesis  bool     `json:"genesis"`
 	GenesisFrom bool     `json:"genesis_from"` // fund the pool through From/InitReward
+	GenesisBank bool     `json:"genesis_bank,omitempty"` // (when not GenesisFrom) the pool's balance is a bank-genesis entry without an account record
 	Init        paramSet `json:"init"`
 	InitRoute   string   `json:"init_route"`
 	Pool        []rc     `json:"pool"`
@@ -381,7 +382,9 @@ func genRoute(rng *rand.Rand) string {
 const nUsers = 3
 
 func genPlan(rng *rand.Rand, blocks int) plan {
-	pl := plan{ViaGenesis: rng.Intn(12) == 0, GenesisFrom: rng.Intn(5) != 0}
+	via := rng.Intn(12) == 0
+	gv := rng.Intn(5)
+	pl := plan{ViaGenesis: via, GenesisFrom: gv >= 2, GenesisBank: gv == 1}
 	pl.Init = genParams(rng)
 	pl.InitRoute = genRoute(rng)
 	pl.Pool = genPool(rng, pl.Init)
